@@ -158,21 +158,22 @@ def counts_case(case):
                 return {"ok": False, "msg": "check_parity / check_parity_of_vector on %s, qubits %s" % (s, qs), "expected": par, "sig": "counts:parity"}
     # parity tallies for every ordered pair of subsets
     for a, b in itertools.product(S, repeat=2):
-        op = PauliSum([PauliTerm({q: "Z" for q in a}, 2.0), PauliTerm({q: "Z" for q in b}, -0.5)])
-        p = get_parities_from_measurements(list(shots), op)
-        k += 1
-        vals = np.asarray(p.values)
-        exp_vals = [[sum(1 for s in shots if sum(s[q] for q in t) % 2 == 0), sum(1 for s in shots if sum(s[q] for q in t) % 2 == 1)] for t in (a, b)]
-        if vals.tolist() != exp_vals:
-            return {"ok": False, "msg": "parity tallies for terms on %s, %s" % (a, b), "expected": exp_vals, "observed": vals.tolist(), "sig": "parities:values"}
-        C = np.asarray(p.correlations[0])
-        T = (a, b)
-        for i in range(2):
-            for j in range(2):
-                ev = sum(1 for s in shots if (sum(s[q] for q in T[i]) + sum(s[q] for q in T[j])) % 2 == 0)
-                if [int(C[i, j, 0]), int(C[i, j, 1])] != [ev, N - ev]:
-                    return {"ok": False, "msg": "pair parity tallies [%d,%d] for terms on %s, %s" % (i, j, a, b), "expected": [ev, N - ev], "observed": C[i, j].tolist(),
-                            "sig": "parities:correlations"}
+      for ca, cb in ((2.0, -0.5), (0.0, 0.0), (0, 1e-12)):      # parity tallies count shots - the coefficients (zero included) play no part in them
+          op = PauliSum([PauliTerm({q: "Z" for q in a}, ca), PauliTerm({q: "Z" for q in b}, cb)])
+          p = get_parities_from_measurements(list(shots), op)
+          k += 1
+          vals = np.asarray(p.values)
+          exp_vals = [[sum(1 for s in shots if sum(s[q] for q in t) % 2 == 0), sum(1 for s in shots if sum(s[q] for q in t) % 2 == 1)] for t in (a, b)]
+          if vals.tolist() != exp_vals:
+              return {"ok": False, "msg": "parity tallies for terms on %s, %s" % (a, b), "expected": exp_vals, "observed": vals.tolist(), "sig": "parities:values"}
+          C = np.asarray(p.correlations[0])
+          T = (a, b)
+          for i in range(2):
+              for j in range(2):
+                  ev = sum(1 for s in shots if (sum(s[q] for q in T[i]) + sum(s[q] for q in T[j])) % 2 == 0)
+                  if [int(C[i, j, 0]), int(C[i, j, 1])] != [ev, N - ev]:
+                      return {"ok": False, "msg": "pair parity tallies [%d,%d] for terms on %s, %s" % (i, j, a, b), "expected": [ev, N - ev], "observed": C[i, j].tolist(),
+                              "sig": "parities:correlations"}
     # a bare PauliTerm (constant, single- and multi-qubit) is an Ising operator with one term
     for a in S:
         for c in (1.0, -0.5):
